@@ -30,6 +30,16 @@ Asc(s) == s     \* placeholder: byte strings come from the batch as sequences of
 RECURSIVE AllStmts(_, _, _)
 AllStmts(lines, i, acc) == IF i > Len(lines) THEN acc ELSE AllStmts(lines, i + 1, acc \o Statements(lines[i]))
 
+\* a text both tokenisations of TealLex read alike
+\* (an escape-aware reader also refuses a quote inside a literal that is not escaped, the assembler takes it as a character)
+InteriorQuote(tok) == /\ Len(tok) >= 2 /\ tok[1] = QUOTE
+                      /\ \E p \in 2..(Len(tok) - 1) : tok[p] = QUOTE /\ BslRun(tok, p - 1) % 2 = 0
+HasQuote(line) == \E p \in 1..Len(line) : line[p] = QUOTE           \* lines without a quote are read alike by construction
+Unambiguous(lines) == \A i \in 1..Len(lines) :
+                         HasQuote(lines[i]) => LET toks == Tokens(lines[i]) IN
+                                               /\ toks = TokensStrict(lines[i])
+                                               /\ \A j \in 1..Len(toks) : ~InteriorQuote(toks[j])
+
 POP == <<112, 111, 112>>
 INT == <<105, 110, 116>>
 RETURN == <<114, 101, 116, 117, 114, 110>>
@@ -48,7 +58,8 @@ Decode(e, args) ==
 
 LitClause(e) ==
   LET ss == AllStmts(e.lines, 1, <<>>) IN
-  IF Len(ss) # 5 THEN "statement-count=" \o ToString(Len(ss))
+  IF ~Unambiguous(e.lines) THEN "literal-read-differently-by-escape-aware-and-assembler-tokenisation"
+  ELSE IF Len(ss) # 5 THEN "statement-count=" \o ToString(Len(ss))
   ELSE IF ss[1][1] # PRAGMA THEN "no-pragma"
   ELSE IF ss[3] # <<POP>> \/ ss[4] # <<INT, ONE>> \/ ss[5] # <<RETURN>> THEN "extra-or-changed-instructions"
   ELSE IF ss[2][1] # e.op THEN "opcode"
@@ -102,7 +113,8 @@ StripClause(e) ==
   LET sa == AllStmts(e.a, 1, <<>>)
       sb == AllStmts(e.b, 1, <<>>)
       sa2 == Without(sa, e.skip)
-  IN IF DupLabels(sa) THEN "duplicate-label"
+  IN IF ~Unambiguous(e.a) THEN "annotated-text-read-differently-by-escape-aware-and-assembler-tokenisation"
+     ELSE IF DupLabels(sa) THEN "duplicate-label"
      ELSE IF \E j \in 1..Len(e.skip) : e.skip[j] > Len(sa) THEN "nonce-pair-missing"
      ELSE IF \E j \in 1..Len(e.skip) : (j % 2 = 0 /\ sa[e.skip[j]] # <<POP>>) THEN "nonce-pair-shape"
      ELSE IF Len(sa2) # Len(sb) THEN "statement-count " \o ToString(Len(sa2)) \o "/" \o ToString(Len(sb))
